@@ -246,6 +246,11 @@ impl Posix {
         let mut ev: Vec<(i64, bool)> = Vec::with_capacity(6);
         for yy in (y - 1)..=(y + 1) {
             let (s, e) = self.events(yy).unwrap();
+            // DST that ends at the instant it starts (same rule year) is an empty period: standard time throughout
+            // (glibc: `t >= start && t < end`); an end that coincides with the *next* year's start is all-year DST
+            if s == e {
+                continue;
+            }
             ev.push((s, true));
             ev.push((e, false));
         }
